@@ -1,4 +1,5 @@
 import EaselModel.Buffer.TotalHist
+import EaselModel.Buffer.MemSpecStep
 import EaselModel.Buffer.Quiet
 /-! # The whole-input modes, exactly, for EVERY history
 
@@ -7,19 +8,6 @@ what happens to be loaded, so the outcome of every call with every argument is a
 `memStep`. Anchors are documented no-ops, `SetOffset` goes anywhere up to the end of the input and answers `eslEINVAL`
 beyond it (4515997). Here the relation `Total` of `history_total` collapses to an equation, without any API contract. -/
 namespace EaselModel.Buffer
-
-/-- specification of the 14 operations on a buffer that holds the whole input (total: every argument) -/
-def memStep (a : AState) (op : Op) : Obs × AState :=
-  match op with
-  | .setAnchor _ | .setStableAnchor _ | .raiseAnchor _ => (⟨.ok, [], a.cur⟩, { a with lastp := none })
-  | .setOffset o =>
-    if a.src.length < o then (⟨.einval, [], a.cur⟩, { a with lastp := none })
-    else (⟨.ok, [], o⟩, { a with cur := o, lastp := none })
-  | op => specStep a op
-
-def memRun : AState → List Op → List Obs
-  | _, [] => []
-  | a, op :: ops => (memStep a op).1 :: memRun (memStep a op).2 ops
 
 /-- simulation relation of the whole-input modes: `R`, no stream, no anchor record -/
 structure RM (P : Nat) (a : AState) (s : Sess) : Prop where
